@@ -18,6 +18,7 @@ import (
 	"testing/synctest"
 	"time"
 
+	"google.golang.org/grpc/codes"
 	"google.golang.org/protobuf/proto"
 	"google.golang.org/protobuf/types/known/timestamppb"
 
@@ -254,6 +255,15 @@ type watcher struct {
 	events []string
 	bms    []state.Bookmark
 	dead   bool
+	// stream is the number of the loopback Watch stream behind a remote watcher (-1: none); gaveUp: an injected stream failure hit it
+	// before it had a resume point, so it has to end with Errored (the statement of C13) - its twin is retired with it
+	stream int
+	gaveUp bool
+	// resumed: an injected stream failure hit it and it carried on; the opening Noop (a bare bookmark, no log event) may have been
+	// lost with the stream - it is not re-sent after a resume and is left out of the comparison for such a watch
+	resumed bool
+	// noBM: no longer a source of bookmarks for later steps (the twins' bookmark lists differ after an injected failure)
+	noBM bool
 }
 
 func vec(err error) string {
@@ -363,6 +373,8 @@ func differential(c *vk.C, rng *rand.Rand, k int) {
 	}
 
 	steps := 30 + rng.IntN(50)
+	frng := rand.New(rand.NewPCG(uint64(c.Seed), uint64(77000+k)))
+	hitsSeen := 0
 
 	for s := 0; s < steps; s++ {
 		ns := nss[rng.IntN(2)]
@@ -523,7 +535,16 @@ func differential(c *vk.C, rng *rand.Rand, k int) {
 					continue
 				}
 
-				w := &watcher{}
+				w := &watcher{stream: -1}
+
+				// a transient stream failure (every second scenario, one watch in three): with a resume point the remote watch
+				// has to carry on exactly like the direct one (same selectors, no replayed bootstrap, nothing lost)
+				if hi == 1 && k%2 == 1 && frng.IntN(3) == 0 {
+					w.stream = cli.Streams()
+					cli.FailRecv(w.stream, 2+frng.IntN(5), []codes.Code{codes.Unavailable, codes.Internal}[frng.IntN(2)])
+				} else if hi == 1 {
+					w.stream = cli.Streams()
+				}
 
 				var (
 					err   error
@@ -622,6 +643,33 @@ func differential(c *vk.C, rng *rand.Rand, k int) {
 		// drain and compare the watches
 		synctest.Wait()
 
+		// an injected stream failure was hit: no write happens before the client has resumed (its resume point is the latest event,
+		// which the server still has for certain)
+		if hits := cli.FailHits(); len(hits) > hitsSeen {
+			for _, ht := range hits[hitsSeen:] {
+				for wi, w := range R.watch {
+					if w.stream == ht.Stream && !w.dead {
+						w.noBM, w.bms = true, nil
+						D.watch[wi].noBM, D.watch[wi].bms = true, nil
+						w.stream = -1 // (the resumed stream has another number; one failure per watch)
+
+						if ht.LastBookmark == nil {
+							w.gaveUp = true
+							c.Count("transient_faults_without_resume_point", 1)
+						} else {
+							w.resumed = true
+							c.Count("transient_faults_resumed", 1)
+						}
+					}
+				}
+			}
+
+			hitsSeen = len(hits)
+
+			time.Sleep(10 * time.Second)
+			synctest.Wait()
+		}
+
 		for wi := range D.watch {
 			var got [2][]string
 
@@ -635,12 +683,18 @@ func differential(c *vk.C, rng *rand.Rand, k int) {
 					select {
 					case ev := <-w.ch:
 						got[hi] = append(got[hi], evString(ev))
-						w.bms = appendBM(w.bms, ev)
+
+						if !w.noBM {
+							w.bms = appendBM(w.bms, ev)
+						}
 					case evs := <-w.agg:
 						var parts []string
 						for _, ev := range evs {
 							parts = append(parts, evString(ev))
-							w.bms = appendBM(w.bms, ev)
+
+							if !w.noBM {
+								w.bms = appendBM(w.bms, ev)
+							}
 						}
 
 						got[hi] = append(got[hi], "["+strings.Join(parts, " ; ")+"]")
@@ -652,8 +706,27 @@ func differential(c *vk.C, rng *rand.Rand, k int) {
 
 			events += len(got[0])
 
+			if rw := R.watch[wi]; rw.gaveUp && !rw.dead {
+				// what it delivered before is a prefix of the direct stream, then exactly one Errored
+				fr := strings.Split(flatten(got[1]), "\n")
+				if n := len(fr); n == 0 || !strings.HasPrefix(fr[n-1], "Errored") || !strings.HasPrefix(flatten(got[0])+"\n", strings.Join(fr[:n-1], "\n")) {
+					diverged(fmt.Sprint(s), fmt.Sprintf("events of watch %d (stream failure without a resume point: a prefix, then Errored)", wi), got[0], got[1])
+
+					return
+				}
+
+				rw.dead, D.watch[wi].dead = true, true
+
+				continue
+			}
+
 			// aggregated batches may be split differently by the transport: compare the flattened sequence
-			if flatten(got[0]) != flatten(got[1]) {
+			fd, fr := flatten(got[0]), flatten(got[1])
+			if R.watch[wi].resumed {
+				fd, fr = dropNoops(fd), dropNoops(fr)
+			}
+
+			if fd != fr {
 				diverged(fmt.Sprint(s), fmt.Sprintf("events of watch %d", wi), got[0], got[1])
 
 				return
@@ -698,6 +771,18 @@ func appendBM(bms []state.Bookmark, ev state.Event) []state.Bookmark {
 	}
 
 	return bms
+}
+
+func dropNoops(s string) string {
+	var keep []string
+
+	for _, l := range strings.Split(s, "\n") {
+		if !strings.HasPrefix(l, "Noop") {
+			keep = append(keep, l)
+		}
+	}
+
+	return strings.Join(keep, "\n")
 }
 
 func flatten(s []string) string {
